@@ -241,11 +241,15 @@ fn check_input(text: &str, origin: &str, expect: Expect, rng: &mut Rng, st: &mut
             if kml.is_ok() {
                 disagree(st, "kip=Err,parse_kml-accepts", Value::Null);
             }
+            // parse_meta runs no separate validation pass, but validate_command's contract is
+            // "parse_kip and friends already ran these, so calling this on their output changes
+            // nothing": a META text that parse_meta accepts and parse_kip refuses is a
+            // disagreement either way (with or without the tree passing validate_command)
             if let Ok(m) = &meta {
                 let c = Command::Meta(m.clone());
                 match guard("validate_command", text, origin, st, || validate_command(&c)) {
                     Some(Ok(())) => disagree(st, "kip=Err,parse_meta+validate-accepts", Value::Null),
-                    Some(Err(_)) => st.count("meta_accepted_by_parse_meta_refused_by_validate"),
+                    Some(Err(e)) => disagree(st, "kip=Err,parse_meta-accepts-what-validation-refuses", json!(err_key(&e))),
                     None => {}
                 }
             }
